@@ -136,6 +136,20 @@ func catalogue(b *descriptorpb.FileDescriptorProto, syn univ.Syntax) []tcase {
 		M(p).ReservedRange = append(M(p).ReservedRange, &descriptorpb.DescriptorProto_ReservedRange{Start: proto.Int32(2500), End: proto.Int32(2600)})
 		return true
 	})
+	add("reserved range ends exactly where an extension range starts (one number in common)", func(p *descriptorpb.FileDescriptorProto) bool {
+		if len(M(p).ExtensionRange) == 0 {
+			return false
+		}
+		M(p).ReservedRange = append(M(p).ReservedRange, &descriptorpb.DescriptorProto_ReservedRange{Start: proto.Int32(1990), End: proto.Int32(2001)})
+		return true
+	})
+	add("reserved range starts exactly where an extension range ends (one number in common)", func(p *descriptorpb.FileDescriptorProto) bool {
+		if len(M(p).ExtensionRange) == 0 {
+			return false
+		}
+		M(p).ReservedRange = append(M(p).ReservedRange, &descriptorpb.DescriptorProto_ReservedRange{Start: proto.Int32(2999), End: proto.Int32(3005)})
+		return true
+	})
 	add("field uses a reserved number", func(p *descriptorpb.FileDescriptorProto) bool {
 		M(p).Field = append(M(p).Field, newField("usesreserved", 55))
 		return true
